@@ -765,8 +765,11 @@ def roi_from_points(
 
     ny, nx = shape
 
-    _in = np.floor(xy.min(axis=0)).astype("int32") - padding
-    _out = np.ceil(xy.max(axis=0)).astype("int32") + padding
+    # clamp before converting to integers: far away points overflow int32,
+    # limit is far enough outside of the image to not change clipped result
+    lim = float(max(nx, ny) + padding + (1 if align is None else align) + 1)
+    _in = np.clip(np.floor(xy.min(axis=0)), -lim, lim).astype("int64") - padding
+    _out = np.clip(np.ceil(xy.max(axis=0)), -lim, lim).astype("int64") + padding
 
     if align is not None:
         _in = align_down(_in, align)
